@@ -28,6 +28,7 @@ LABELS = {"ident": lambda n: list(range(1, n + 1)),
           "sparse": lambda n: [10, 3, 7, 5, 12, 1, 8, 21, 15, 2][:n],
           "str": lambda n: ["b", "a", "d", "c", "f", "e", "g", "j", "h", "i"][:n],
           "zero": lambda n: list(range(0, n))}
+FRACTIONAL_WEIGHTS = (0.5, 1.5, 1.25, 2.5, 0.75, 1.0, 2.0)
 ESP_INV = ["PsiIsESP", "BarIsESPWithoutLast", "NonNegative"]
 ESP_CONFIGS = {"quick": [dict(N=3, V=2, D=3, Mut=0), dict(N=4, V=2, D=3, Mut=0)],
                "thorough": [dict(N=3, V=2, D=3, Mut=0), dict(N=4, V=2, D=3, Mut=0), dict(N=4, V=2, D=4, Mut=0),
@@ -104,14 +105,35 @@ def config(rng, i, tier):
         if extra not in edges:
             edges.append(extra)
         covered = len({n for e in edges for n in e})
-    weights = [rng.randint(1, 3) for _ in edges] if rng.random() < 0.5 else None
+    # weights: none, whole numbers, or non-integers (dyadic: 0.5, 1.25, ... are exact floats); a weight is the A_e of the
+    # Poisson model and enters the likelihood, the w update and (through the incidence matrix) the u update
+    wkind = rng.choice(["none", "none", "int", "frac"])
+    weights = None if wkind == "none" else [rng.randint(1, 3) if wkind == "int" else rng.choice(FRACTIONAL_WEIGHTS) for _ in edges]
     normalize = i % 3 == 2
     # normalised memberships are judged on what fit returns: short runs return the early iterates too
     iters = rng.choice([1, 1, 2, 2, 6, 25]) if normalize else rng.choice([1, 2, 6, 25, 60])
-    return {"N": N + n_iso, "K": K, "edges": edges, "weights": weights, "family": FAMS[i % 4], "seed": rng.randrange(1, 10 ** 6),
-            "n_realizations": rng.choice([1, 2, 3]), "max_iter": iters,
-            "every": rng.choice([1, 1, 1, 2, 3]), "normalizeU": normalize, "baseline_r0": rng.random() < 0.5,
-            "min_value_par": 0.0 if i % 2 == 0 else 1e-5, "weighted_L": rng.random() < 0.3}
+    cfg = {"N": N + n_iso, "K": K, "edges": edges, "weights": weights, "family": FAMS[i % 4], "seed": rng.randrange(1, 10 ** 6),
+           "n_realizations": rng.choice([1, 2, 3]), "max_iter": iters,
+           "every": rng.choice([1, 1, 1, 2, 3]), "normalizeU": normalize, "baseline_r0": rng.random() < 0.5,
+           "min_value_par": 0.0 if i % 2 == 0 else 1e-5, "weighted_L": rng.random() < 0.3}
+    # history of the MODEL object: in a quarter of the configurations the HySC / HypergraphMT object that is observed has been
+    # fitted before, on another hypergraph with the same number of nodes and the same K (the same hyperedges under a permutation
+    # of the nodes, sometimes one hyperedge more: other isolated nodes, other clusters, sometimes another D)
+    if rng.random() < 0.25:
+        perm = list(range(1, cfg["N"] + 1))
+        rng.shuffle(perm)
+        pe = [tuple(sorted(perm[x - 1] for x in e)) for e in edges]
+        pw = None if weights is None else list(weights)
+        if rng.random() < 0.5:
+            extra = tuple(sorted(rng.sample(range(1, cfg["N"] + 1), rng.randint(2, min(4, cfg["N"])))))
+            if extra not in pe:
+                pe.append(extra)
+                if pw is not None:
+                    pw.append(rng.choice(weights))
+        if pw is not None:
+            rng.shuffle(pw)
+        cfg["refit_after"] = {"edges": pe, "weights": pw, "seed": rng.randrange(1, 10 ** 6)}
+    return cfg
 
 
 def hooks():
@@ -156,19 +178,23 @@ def probe_class():
     return Probe
 
 
-def fit_mt(cfg, h, probe=False, edges_rows=(), global_offset=0):
+def fit_mt(cfg, h, probe=False, edges_rows=(), global_offset=0, before=None):
+    """before = (hypergraph, seed): the SAME model object is first fitted on that hypergraph; what is observed is its next fit"""
     from hypergraphx.communities.hypergraph_mt.model import HypergraphMT
     if probe:
         HypergraphMT = probe_class()
     hk = hooks()
-    if hk is not None:
-        del hk.EVENTS[:]
     # the GLOBAL generators are put into a different state for the second run: "same seed" means the
     # seed argument of the method, a result must not depend on numpy's / random's global state
     np.random.seed((cfg["seed"] + 7919 * global_offset) % (2 ** 32))
     random.seed(cfg["seed"] + 7919 * global_offset)
     m = HypergraphMT(verbose=False, n_realizations=cfg["n_realizations"], max_iter=cfg["max_iter"],
                      check_convergence_every=cfg["every"], min_value_par=cfg["min_value_par"])
+    if before is not None:
+        m.verif_cond, m.verif_edges = [], []
+        m.fit(before[0], K=cfg["K"], seed=before[1], normalizeU=cfg["normalizeU"], baseline_r0=cfg["baseline_r0"])
+    if hk is not None:
+        del hk.EVENTS[:]
     m.verif_cond, m.verif_edges = [], list(edges_rows)
     u, w, L = m.fit(h, K=cfg["K"], seed=cfg["seed"], normalizeU=cfg["normalizeU"], baseline_r0=cfg["baseline_r0"])
     ev = list(hk.EVENTS) if hk is not None else None
@@ -191,13 +217,18 @@ def observe(cfg, idx):
     edges = [list(e) for e in cfg["edges"]]
     info = {"raised": []}
     hy = mt = tr = None
+    prev = cfg.get("refit_after")
+    h_prev = build_hypergraph(labels, [tuple(e) for e in prev["edges"]], prev["weights"], rng) if prev else None
     # ---- HySC
     with quiet():
         try:
             outs = []
             for attempt in range(2):
                 np.random.seed((cfg["seed"] + 7919 * attempt) % (2 ** 32))
-                outs.append(np.array(HySC(seed=cfg["seed"]).fit(h, K=K, weighted_L=cfg["weighted_L"])))
+                model = HySC(seed=cfg["seed"])
+                if prev and attempt == 0:            # the observed object has been fitted before; the second one is fresh
+                    model.fit(h_prev, K=K, weighted_L=cfg["weighted_L"])
+                outs.append(np.array(model.fit(h, K=K, weighted_L=cfg["weighted_L"])))
             a = outs[0]
             code = lambda x: 0 if x == 0 else (1 if x == 1 else 2)
             if a.ndim == 2 and a.shape[0] == N:
@@ -211,7 +242,7 @@ def observe(cfg, idx):
     with quiet():
         try:
             E_rows = [tuple(int(r) for r in inc[:, [j]].nonzero()[0]) for j in range(inc.shape[1])]
-            m, u, w, L, ev = fit_mt(cfg, h, probe=True, edges_rows=E_rows)
+            m, u, w, L, ev = fit_mt(cfg, h, probe=True, edges_rows=E_rows, before=(h_prev, prev["seed"]) if prev else None)
             m2, u2, w2, L2, _ = fit_mt(cfg, h, global_offset=1)
         except Exception as ex:
             info["raised"].append(("HypergraphMT.fit", repr(ex)))
@@ -344,11 +375,20 @@ def validate(res, tier, rng, only=None):
     v2["rejects"] = [r for r in v2["rejects"] if r[0] < len(traces)]
 
     def short(cfg):
-        return {k: cfg[k] for k in ("N", "K", "edges", "weights", "family", "seed", "n_realizations", "max_iter", "every",
-                                    "normalizeU", "baseline_r0", "min_value_par")}
+        d = {k: cfg[k] for k in ("N", "K", "edges", "weights", "family", "seed", "n_realizations", "max_iter", "every",
+                                 "normalizeU", "baseline_r0", "min_value_par")}
+        if cfg.get("refit_after"):
+            d["model_object_fitted_before_on"] = cfg["refit_after"]
+        return d
+
+    def hist(sig, cfg):
+        # the history of the model object is part of the signature: a fault that needs a re-used object is another finding
+        if cfg.get("refit_after"):
+            sig["history"] = "model object fitted before"
+        return sig
     for i, info in enumerate(infos):
         if info["raised"]:
-            res.reject({"clauses": sorted({r[0] + "_raised" for r in info["raised"]})},
+            res.reject(hist({"clauses": sorted({r[0] + "_raised" for r in info["raised"]})}, cfgs[i]),
                        "%s raised on a hypergraph with a hyperedge of size >= 2: %s" % (info["raised"][0][0], info["raised"][0][1][:300]),
                        {"config": cfgs[i]})
         if info.get("hook_events_equal_table") is False:
@@ -356,7 +396,7 @@ def validate(res, tier, rng, only=None):
     for k, failed in v1["rejects"]:
         i = cidx[k]
         cfg = cfgs[i]
-        res.reject({"clauses": failed, "method": cases[k]["kind"]},
+        res.reject(hist({"clauses": failed, "method": cases[k]["kind"]}, cfg),
                    "%s.fit output breaks %s: %s" % ("HySC" if cases[k]["kind"] == "hysc" else "HypergraphMT", ",".join(failed), short(cfg)),
                    {"config": cfg, "logged": cases[k], "returned": {x: infos[i].get(x) for x in ("u", "w", "maxL", "loglik_from_definition", "loglik_tolerance", "row_of_node")}})
     by_trace = {}
@@ -371,7 +411,7 @@ def validate(res, tier, rng, only=None):
                    "events": traces[t]["ev"], "impossible_hyperedge": infos[i].get("impossible_hyperedge"),
                    "rounding_bounds": infos[i].get("rounding_bounds")}
         if prop:
-            res.reject({"clauses": prop, "method": "mt", "normalizeU": cfg["normalizeU"]},
+            res.reject(hist({"clauses": prop, "method": "mt", "normalizeU": cfg["normalizeU"]}, cfg),
                        "HypergraphMT.fit train_info breaks %s (first at event %d): %s" % (",".join(prop), rj[0][0], short(cfg)), payload)
         elif model:
             res.model_drift("train_info / hook events deviate from EMDriver in %s: %s" % (",".join(model), short(cfg)))
@@ -393,6 +433,8 @@ def validate(res, tier, rng, only=None):
             ascent_not_judged_no_probe=sum(1 for i_ in infos if i_.get("ascent_judged") is False),
             loglik_definition_checked=sum(1 for c in cases if "lldef" in c),
             with_isolated_nodes=sum(1 for c in cfgs if c["N"] > len({n for e in c["edges"] for n in e})),
+            model_object_fitted_before=sum(1 for c in cfgs if c.get("refit_after")),
+            non_integer_weights=sum(1 for c in cfgs if c["weights"] and any(x != int(x) for x in c["weights"])),
             hooks_installed=hooks() is not None, validator_selftests=len(selfc) + len(selft))
     if traces:
         res.sample({"config": short(cfgs[tidx[0]]), "train_info_rows": infos[tidx[0]].get("train_info", [])[:6], "maxL": infos[tidx[0]].get("maxL")})
@@ -424,7 +466,11 @@ def run(tier, seed):
         "hyperedges have size >= 2 (nodes touched only by singleton hyperedges are an unspecified corner); at least K+1 non-isolated nodes",
         "without hypergraphx/_verif.py only the train_info table is validated; with it the mt_step / mt_end events add: final value of a realisation "
         "= last recorded, chosen iff strictly better, returned parameters are byte-identical to those at the end of the best realisation",
-        "reproducibility: two fresh models with the same seed must return bit-identical u, w, maxL and the same train_info (runtime column excluded)")
+        "reproducibility: two models with the same seed must return bit-identical u, w, maxL and the same train_info (runtime column excluded)",
+        "weights are absent, whole numbers 1..3 or dyadic non-integers (0.5 .. 2.5); the definition is evaluated with the weights get_weights() reports",
+        "in a quarter of the configurations the observed HySC / HypergraphMT object has been fitted before on another hypergraph with the same number "
+        "of nodes and the same K (fit is a function of its arguments: the statement has no clause about the model object's past); its output is "
+        "judged like any other and must be identical to that of a fresh object with the same seed")
     return res.finish()
 
 
@@ -434,5 +480,7 @@ def replay(path):
     res = Result("C17", "replay", rp.get("seed", 0), "exploration")
     cfg = rp["payload"]["config"]
     cfg["edges"] = [tuple(e) for e in cfg["edges"]]
+    if cfg.get("refit_after"):
+        cfg["refit_after"]["edges"] = [tuple(e) for e in cfg["refit_after"]["edges"]]
     validate(res, "quick", random.Random(0), only=[cfg])
     return res.finish()
